@@ -1,6 +1,6 @@
 use io_uring::opcode::{
     Accept, AsyncCancel, Close, Connect, EpollCtl, Fsync, MkDirAt, OpenAt, PollAdd, PollRemove,
-    Read, Readv, Recv, RecvMsg, RenameAt, Send, SendMsg, SendZc, Shutdown, Socket, Timeout,
+    Read, Readv, Recv, RecvMsg, RenameAt, Send, SendMsg, Shutdown, Socket, Timeout,
     TimeoutRemove, TimeoutUpdate, Write, Writev,
 };
 use io_uring::squeue::Entry;
@@ -599,11 +599,13 @@ impl Operator<'_> {
         addr: *const sockaddr,
         addrlen: socklen_t,
     ) -> std::io::Result<()> {
+        // a plain send with a destination: a zero-copy send posts a second completion
+        // (the buffer notification) under the same user data, which nobody here expects
         support!(
             self,
-            SUPPORT_SEND_ZC,
-            SendZc,
-            SendZc::new(
+            SUPPORT_SENDTO,
+            Send,
+            Send::new(
                 Fd(fd),
                 buf.cast::<u8>(),
                 len.try_into().expect("len overflow")
